@@ -108,8 +108,24 @@ func verifyFunction(p *Program, fn *ssa.Function, c *Contract) (s *Session, err 
 	}
 	// preconditions
 	var pres []string
-	for _, cl := range c.Requires {
+	for i, cl := range c.Requires {
+		if c.exhaustive != nil && i == c.exhaustiveReq {
+			// before assuming the case of this session: the case split covers everything the other preconditions allow
+			s.addObl(&Obligation{Name: c.Key() + "#split-exhaustive", Kind: "split", Guard: "true", Goal: f.evalClause(*c.exhaustive, s.entry, s.entry, nil),
+				Clause: "case split is exhaustive: " + c.exhaustive.Text})
+		}
+		f.hypMode = true
 		t := f.evalClause(cl, s.entry, s.entry, nil)
+		f.hypMode = false
+		if c.exhaustive != nil || c.splitCase {
+			if i == len(c.Requires)-1 && strings.HasPrefix(t, "(= ") {
+				// the case assumption  term == literal  is also applied as a textual substitution, which keeps products with it linear
+				parts := splitTop(t)
+				if len(parts) == 3 && len(parts[1]) > 8 {
+					s.subst = append(s.subst, [2]string{parts[1], parts[2]})
+				}
+			}
+		}
 		pres = append(pres, t)
 		s.fact(t)
 	}
@@ -250,7 +266,9 @@ func (f *Frame) assumeTypeInvariants() {
 		}
 		pt := types.NewPointer(o.Type())
 		ctx := &EvalCtx{f: f, env: map[string]Val{}, heap: s.plainView(s.entry), old: s.plainView(s.entry), bound: map[string]Val{}, pkg: tc.Pkg, where: "type invariant " + k}
+		f.hypMode = true
 		inv := ctx.typeInv(S{"r", pt})
+		f.hypMode = false
 		var vs []string
 		for _, cl := range tc.Views {
 			n, err := parseXExpr(cl.Text)
@@ -286,6 +304,9 @@ func (f *Frame) checkPost(rs []Val, pos string) {
 	c := s.C
 	// objects of types with an invariant that this activation allocated must satisfy it on return
 	for _, na := range s.newObjs {
+		if s.curBlk != nil && na.blk != nil && !s.ancestors(s.curBlk)[na.blk] {
+			continue // allocated on a path that does not lead to this return
+		}
 		ctx := &EvalCtx{f: f, env: map[string]Val{}, heap: s.plainView(f.cur.heap), old: s.plainView(s.entry), bound: map[string]Val{}, pkg: pkgNameOf(f.fn), where: "type invariant at allocation"}
 		inv := ctx.typeInv(S{na.ref, na.ptrType})
 		if inv == "true" {
@@ -488,7 +509,9 @@ func (f *Frame) applyContract(sig *types.Signature, ct *Contract, env map[string
 		}
 	}
 	for _, cl := range append(append([]Clause{}, ct.Ensures...), ct.Defines...) {
+		g.hypMode = true
 		t := evalIn(cl, view, renv)
+		g.hypMode = false
 		s.fact(implies(f.cur.reach, t))
 	}
 	f.cur = &BState{f.cur.reach, post}
